@@ -135,6 +135,10 @@ Proof. exact generated_shapes_tables_req. Qed.
 Theorem c15_modelled_functions_unchanged_tables_info : shapes_hold fn_shapes shapes_tables_info = true.
 Proof. exact generated_shapes_tables_info. Qed.
 
+(* the cargo features are independent switches with nothing on by default: a feature set of the model means exactly its cfgs *)
+Theorem c15_feature_table_unchanged : features_hold cargo_features = true.
+Proof. exact generated_features. Qed.
+
 Eval vm_compute in "ASSUMPTIONS c15_bidirectional_set". Print Assumptions c15_bidirectional_set.
 Eval vm_compute in "ASSUMPTIONS c15_generated_ser". Print Assumptions c15_generated_ser.
 Eval vm_compute in "ASSUMPTIONS c15_generated_de". Print Assumptions c15_generated_de.
@@ -159,3 +163,4 @@ Eval vm_compute in "ASSUMPTIONS c15_modelled_functions_unchanged_response". Prin
 Eval vm_compute in "ASSUMPTIONS c15_modelled_functions_unchanged_accessors". Print Assumptions c15_modelled_functions_unchanged_accessors.
 Eval vm_compute in "ASSUMPTIONS c15_modelled_functions_unchanged_tables_req". Print Assumptions c15_modelled_functions_unchanged_tables_req.
 Eval vm_compute in "ASSUMPTIONS c15_modelled_functions_unchanged_tables_info". Print Assumptions c15_modelled_functions_unchanged_tables_info.
+Eval vm_compute in "ASSUMPTIONS c15_feature_table_unchanged". Print Assumptions c15_feature_table_unchanged.
